@@ -64,10 +64,13 @@ FontsBuiltin ==
   \* the program declares "/Encoding StandardEncoding def" (with or without a ToUnicode map / an Encoding entry)
   \cup {[F0 EXCEPT !.kind = k, !.enc = eb[1], !.base = eb[2], !.file = TRUE, !.std = TRUE, !.tu = t] :
           k \in {"Type1", "MMType1"}, eb \in {<<"absent", "">>, <<"name", "mac">>}, t \in {<<>>, TuOne}}
+  \* ... followed by dup/put entries that override single codes of the standard table
+  \cup {[F0 EXCEPT !.enc = "absent", !.base = "", !.file = TRUE, !.std = TRUE, !.ent = es] :
+          es \in {<<E(1, "gA")>>, <<E(2, "gB"), E(3, "gA")>>, <<E(1, "gBad")>>, <<E(2, "gA"), E(2, "gB")>>}}
 
 \* pattern of latin_enc at bytes 0..7 (nothing defined) and 124..131, for hand runs
 SampleDefined(b, byte) == byte \in 124..126 \/ (b \in {"mac", "win", "pdf"} /\ byte \in 128..131)
                           \/ (b = "pdf" /\ byte = 127 /\ FALSE)
-AllDev == {"DiffKeepsBase", "HeaderValueError", "Type3SkewWidth", "BuiltinStdIgnored"}
+AllDev == {"DiffKeepsBase", "HeaderValueError", "Type3SkewWidth", "BuiltinStdIgnored", "BuiltinKeepsEarlier"}
 NoDev == {}
 =============================================================================
